@@ -27,8 +27,8 @@ type Rendered struct {
 // LayoutKinds lists every layout site kind the renderer knows, with the number
 // of alternatives. (Documented against the grammar in DESIGN.md section 3/C03.)
 var LayoutKinds = map[string]int{
-	"lead": 6, "eol": 2, "gap": 6, "indent": 6, "trail": 4, "ws1": 4, "ws0": 4, "wsparen": 3, "paren": 3,
-	"rnl": 2, "bodyopen": 3, "bodyclose": 3, "end": 6, "gcomm": 4,
+	"lead": 6, "eol": 2, "gap": 6, "indent": 6, "trail": 6, "ws1": 4, "ws0": 4, "wsparen": 3, "paren": 3,
+	"rnl": 2, "bodyopen": 3, "bodyclose": 3, "end": 12, "gcomm": 4,
 }
 
 type renderer struct {
@@ -94,7 +94,7 @@ func (r *renderer) nl(indent string, blank bool) { r.nlDecl(indent, blank, false
 func (r *renderer) nlDecl(indent string, blank, decl bool) {
 	// trailing part of the line being ended
 	if r.comments {
-		r.w(r.pick("trail", "", " # trailing comment, see #42 # with [brackets] and : colon", "   ", "\t"))
+		r.w(r.pick("trail", "", " # trailing comment, see #42 # with [brackets] and : colon", "   ", "\t", "    # trailing comment behind a wide gap", " \t # trailing comment behind blank, tab, blank"))
 	} else {
 		r.w(r.pick("trail", "", "  ", "\t", " "))
 	}
@@ -323,7 +323,7 @@ func Render(m *Model, lay *Layout) *Rendered {
 		}
 		r.w("}")
 	}
-	r.w(r.pick("end", "\n", "", "\n\n\n", "\n# trailing comment", "\n   ", "\r\n"))
+	r.w(r.pick("end", "\n", "", "\n\n\n", "\n# trailing comment", "\n   ", "\r\n", " # comment on the last line, no line end", "   # comment on the last line behind a wide gap\n", "  # last line, wide gap, CRLF\r\n\r\n", "\t\n", " # last-line comment\n\n  # and more\n", " \t \n\n"))
 	return &Rendered{Text: r.sb.String(), Marks: r.marks, Sites: r.sites}
 }
 
